@@ -662,9 +662,112 @@ def r12_5(prog: Program, chk: Check) -> None:
     chk.ob("R12.6", "safe::safe_equals::catches-everything", broad and uses >= 3, prog.site("safe", se), f"safe_equals must swallow every exception of a user __eq__ (broad handler: {broad}, call sites: {uses})")
 
 
+# ------------------------------------------------------------------- R12.7 / R12.8
+# A container of the checker (a list of members, a table) indexed by a literal payload of the
+# checked program: the subscript itself can raise (IndexError, KeyError, TypeError for an
+# unhashable key or non-integer slice bounds, ValueError for a zero slice step).
+R127_EXCEPTIONS: Dict[Tuple[str, str, str], str] = {
+    ("format_strings", "PercentFormatString.accept_mapping_args_no_mvv", "cs_map[pair.key.val]"): "cs_map is a defaultdict(list) and the enclosing test establishes that the key is a str: the lookup cannot raise",
+    ("implementation", "_typeddict_setitem", "self_value.items[key.val]"): "else-branch of `key.val not in self_value.items`: the key was just found in that dict (its hashability is reported earlier as unhashable_key)",
+    ("name_check_visitor", "NameCheckVisitor._composite_from_subscript_no_mvv", "type[index.val]"): "type[...] accepts any object (types.GenericAlias does not validate its argument)",
+}
+
+
+def _guards_payload_subscript(node: ast.Subscript, fn: ast.AST) -> Optional[str]:
+    """The idiom that makes `container[payload]` safe, or None."""
+    t = _enclosing_try(node, fn)
+    cont, key = norm(node.value), norm(node.slice)
+    tests: List[str] = []
+    child: ast.AST = node
+    p = parent(node)
+    while p is not None and p is not fn:
+        if isinstance(p, ast.If) and any(child is s or any(x is child for x in ast.walk(s)) for s in p.body):
+            tests.append(norm(p.test))
+        child = p
+        p = parent(p)
+    is_slice = any(f"isinstance({key}, slice)" in x for x in tests)
+    if t is not None:
+        if _handler_is_broad(t):
+            return "try / except Exception"
+        caught = {norm(x) for h in t.handlers if h.type is not None for x in (h.type.elts if isinstance(h.type, ast.Tuple) else [h.type])}
+        need = {"ValueError", "TypeError"} if is_slice else {"IndexError", "KeyError", "TypeError"}
+        if need <= caught or (not is_slice and {"LookupError", "TypeError"} <= caught):
+            return "try / except " + ", ".join(sorted(caught))
+        return None
+    if is_slice:
+        return None  # a slice can always raise (zero step, non-integer bounds)
+    if any(f"-len({cont}) <= {key} < len({cont})" in x for x in tests):
+        return "range check against len()"
+    if any(x == f"{key} in {cont}" or x.startswith(f"{key} in {cont} ") for x in tests):
+        return "membership test"
+    return None
+
+
+def r12_7(prog: Program, chk: Check) -> None:
+    chk.rule(
+        "R12.7",
+        "a container of the checker indexed by a literal payload of the checked program (`members[key.val]`) is protected: inside a try that catches Exception or every exception the "
+        "subscript can raise (for a slice payload ValueError and TypeError), behind a range check against len() of the same container, or behind a membership test of the same key in "
+        "the same container; three read sites are listed exceptions with their reason",
+        floor=6,
+    )
+    seen: Dict[str, int] = {}
+    for m, q, fn in prog.iter_functions():
+        tainted = _payload_taint(fn)
+        for n in walk_no_nested(fn):
+            if not (isinstance(n, ast.Subscript) and isinstance(n.ctx, ast.Load) and _is_payload(n.slice, tainted) and not _is_payload(n.value, tainted)):
+                continue
+            text = norm(n)
+            how = _guards_payload_subscript(n, fn)
+            exc = R127_EXCEPTIONS.get((m, q, text))
+            kinds = "slice" if any(f"isinstance({norm(n.slice)}, slice)" in norm(t.test) for t in ast.walk(fn) if isinstance(t, ast.If) and any(x is n for x in ast.walk(t))) else "index"
+            key = f"{m}::{q}::payload-subscript::{text}::{kinds}"
+            seen[key] = seen.get(key, 0) + 1
+            chk.ob(
+                "R12.7",
+                key + (f"#{seen[key]}" if seen[key] > 1 else ""),
+                how is not None or exc is not None,
+                prog.site(m, n),
+                f"`{text[:60]}` indexes a container of the checker with a literal of the checked program and nothing bounds or catches what the subscript can raise: it escapes as internal_error"
+                + (f" (protected by: {how})" if how else f" (listed exception: {exc})" if exc else ""),
+            )
+
+
+def r12_8(prog: Program, chk: Check) -> None:
+    chk.rule(
+        "R12.8",
+        "methods that live on the metaclass are not called through a class object that comes from the checked program: `cls.mro()` / `cls.__subclasses__()` are unbound when cls is "
+        "`type` itself (use __mro__, or call under a handler that catches Exception). Expected count of unprotected calls: zero",
+        floor=1,
+    )
+    n_sites = 0
+    for m, q, fn in prog.iter_functions():
+        for n in walk_no_nested(fn):
+            if isinstance(n, ast.Call) and isinstance(n.func, ast.Attribute) and n.func.attr in ("mro", "__subclasses__") and not n.args and not n.keywords:
+                recv = norm(n.func.value)
+                if recv in ("type", "object") or recv.startswith("super("):
+                    continue
+                n_sites += 1
+                t = _enclosing_try(n, fn)
+                chk.ob(
+                    "R12.8",
+                    f"{m}::{q}::metaclass-method::{norm(n)[:50]}",
+                    t is not None and _handler_is_broad(t),
+                    prog.site(m, n),
+                    f"`{norm(n)[:60]}` raises TypeError (unbound method) when the class is `type`; read `__mro__` instead or catch Exception",
+                )
+    chk.analysed["metaclass_method_calls"] = n_sites
+    # the rule's subject exists: the shared-base computation of suggested_type reads the MRO of classes of the checked program
+    gst = prog.func("suggested_type", "get_shared_type")
+    reads = [x for x in ast.walk(gst) if isinstance(x, ast.Attribute) and x.attr == "__mro__"] + [x for x in ast.walk(gst) if isinstance(x, ast.Call) and isinstance(x.func, ast.Attribute) and x.func.attr == "mro"]
+    chk.ob("R12.8", "suggested_type::get_shared_type::reads-the-mro", bool(reads), prog.site("suggested_type", gst), "get_shared_type must compute the shared base from the classes' MROs")
+
+
 _old_run = run
 
 
 def run(prog: Program, chk: Check) -> None:  # noqa: F811
     guard(chk, _old_run, prog, chk)
     guard(chk, r12_5, prog, chk)
+    guard(chk, r12_7, prog, chk)
+    guard(chk, r12_8, prog, chk)
